@@ -157,6 +157,16 @@ let () =
             let b x = if x then "1" else "0" in
             Buffer.add_string buf (Printf.sprintf "TI %s %s %s |%s\n" tag (b (reach_ok d (mk_reach !rhhint))) (b (dfa_ok d))
               (String.concat "|" (List.map (fun l -> " " ^ print_ns l ^ " ") ts)))
+        | "GB" ->
+            (* the Coq model of Graph::new on the current DFA, compared with the captured graph *)
+            let tag = toks.(1) in
+            let d = get_dfa () and g = get_graph () in
+            let (built, side) = build_checked d in
+            let swapped = List.concat_map (fun (s, qs) -> List.map (fun q -> (q, [s])) qs) !vhint in
+            let r = mk_pairing swapped in
+            let b x = if x then "1" else "0" in
+            Buffer.add_string buf (Printf.sprintf "GB %s %s %s\n" tag
+              (String.concat " " (List.map b side)) (b (gsim_ok built g r)))
         | "CU" ->
             (* DFA-only UTF-8 certificates: dead_ok, utf8_ok, utf8_strict_ok *)
             let tag = toks.(1) in
